@@ -43,6 +43,14 @@ def production(ctx, quick, rnd):
                             sig = sk.sign_digest(dg, k=k, sigencode=enc, allow_truncate=True)
                         except BaseException:  # noqa
                             continue
+                        # recoveries of the same bytes on other curves of the same size first (state kept between calls must not matter)
+                        for sib in curves.curves[:17]:
+                            if sib is not c and sib.baselen == c.baselen:
+                                try:
+                                    VerifyingKey.from_public_key_recovery_with_digest(sig, dg, sib, hashfunc=hashlib.sha256,
+                                                                                      sigdecode=dec, allow_truncate=True)
+                                except BaseException:  # noqa
+                                    pass
                         try:
                             keys = VerifyingKey.from_public_key_recovery_with_digest(sig, dg, c, hashfunc=hashlib.sha256,
                                                                                      sigdecode=dec, allow_truncate=True)
